@@ -322,13 +322,21 @@ def stroke_scenes(ctx):
     longer than the whole subpath, offsets of both signs."""
     rng = ctx.rng
     n = 120 if ctx.tier == "quick" else 2500
-    lines = []
+    lines, specs = [], []
     for i in range(n):
         W, H = rng.randrange(8, 15), rng.randrange(8, 15)
+        big = (i % 3 == 2)
+        if big:
+            # wide dashes on a larger surface: caps and the joins of dashes that bend round a vertex are several pixels big
+            W, H = rng.randrange(30, 41), rng.randrange(30, 41)
         k = rng.randrange(3, 6)
         pts = [(rng.randrange(4, 4 * W - 4) / 4.0, rng.randrange(4, 4 * H - 4) / 4.0) for _ in range(k)]
+        if big:
+            pts = [(rng.randrange(7, W - 7) + 0.5, rng.randrange(7, H - 7) + 0.5) for _ in range(rng.randrange(2, 5))]
         if rng.random() < 0.4:
             x0, y0, x1, y1 = 1.5, 1.5, W - 1.5, H - 1.5
+            if big:
+                x0, y0, x1, y1 = 7.5, 7.5, W - 7.5, H - 7.5
             pts = [(x0, y0), (x1, y0), (x1, y1), (x0, y1)]
         closed = rng.random() < 0.7
         ops = ["M " + scene.fpt(*pts[0])] + ["L " + scene.fpt(*p) for p in pts[1:]] + (["Z"] if closed else [])
@@ -344,11 +352,16 @@ def stroke_scenes(ctx):
             first = rng.choice([1.0, 2.5, 4.0])
         arr = [first, rng.choice([1.0, 3.0, 1000.0])] if rng.random() < 0.8 else [first]
         off = rng.choice([0.0, 0.0, 1.0, -1.0, first / 2, -first / 2, 20.0])
-        style = "STYLE %d %s %s %d %d %s %d" % (FB(rng.choice([1.0, 2.0, 1.5])), rng.choice(["butt", "round", "square"]),
+        if big:
+            arr = [float(rng.randrange(8, 15)), float(rng.randrange(11, 16))]
+            off = rng.choice([0.0, 3.0, -4.0, 7.0])
+        style = "STYLE %d %s %s %d %d %s %d" % (FB(rng.choice([5.0, 6.0, 7.0]) if big else rng.choice([1.0, 2.0, 1.5])), rng.choice(["butt", "round", "square"]),
                                                 rng.choice(["miter", "round", "bevel"]), FB(4.0), len(arr),
                                                 " ".join(str(FB(a)) for a in arr), FB(off))
         lines.append("scene %d %d %d I %s ; stroke %s %s SRC solid ffffffff 3 %d 1" % (
             700000 + i, W, H, " ".join(["00000000"] * (W * H)), scene.path_tokens(ops, 0), style, FB(1.0)))
+        st_ = style.split()
+        specs.append((W, H, ops, arr, off, bits_f32(int(st_[1])), st_[2], st_[3], 4.0))
     try:
         sr = sc.run(lines)
     except sc.ImplDied as e:
@@ -357,6 +370,10 @@ def stroke_scenes(ctx):
     bad = [(i, sr.first_diff(i)) for i in range(len(lines))]
     bad = [(i, k) for i, k in bad if k is not None]
     ctx.cov["dashed_stroke_scenes"] = len(lines)
+    if not bad:
+        dash_region_oracle(ctx, sr, lines, specs)
+        if ctx.violations:
+            return
     if bad:
         i, k = min(bad, key=lambda t: len(sr.aug[t[0]]))
         ctx.violation("stroke-%s" % lines[i].split()[1], sr.aug[i],
@@ -364,6 +381,70 @@ def stroke_scenes(ctx):
                       "(pixels differ from the fill of stroke_to_path(dash_path(flatten(path)))): %d of %d scenes differ\n# impl:  %s\n# model: %s"
                       % (len(bad), len(lines), sr.impl[i][k].raw[:200] if k < len(sr.impl[i]) else "-",
                          sr.model[i][k].raw[:200] if k < len(sr.model[i]) else "-"))
+
+
+def dash_region_oracle(ctx, sr, lines, specs):
+    """every dash is a stroked piece of its own, with its own caps: the pixels DrawTarget::stroke paints are compared (f64,
+    half-pixel + half-diagonal margin) with the union of the stroke regions of the pieces dash_path returns for the same
+    path, array and offset (dash_path itself is what the rest of this check decides)"""
+    dl = ["pdash %d %d %s %d %s" % (i, len(sp[3]), " ".join(str(FB(a)) for a in sp[3]), FB(sp[4]), scene.path_tokens(sp[2], 0))
+          for i, sp in enumerate(specs)]
+    try:
+        aug, impl, model = pc.run(dl)
+    except RuntimeError:
+        return
+    checked = 0
+    for i, sp in enumerate(specs):
+        W, H, ops, arr, off, width, cap, join, ml = sp
+        t = impl[i].split()
+        if len(t) < 5 or t[1] != "ok" or not (width > 0):
+            continue
+        res = sr.impl[i][0] if sr.impl[i] else None
+        if res is None or res.panic:
+            continue
+        px = res.parse()["surface"]
+        try:
+            _, fops, _ = _path.parse_path(t, 2)
+        except Exception:
+            continue
+        pieces, cur = [], []
+        for o in fops:
+            if o[0] == "M":
+                if len(cur) > 1:
+                    pieces.append(cur)
+                cur = [o]
+            else:
+                cur.append(o)
+        if len(cur) > 1:
+            pieces.append(cur)
+        regs = []
+        for pc_ in pieces:
+            pts = [(o[1], o[2]) for o in pc_ if o[0] in ("M", "L")]
+            ln = sum(math.hypot(pts[k + 1][0] - pts[k][0], pts[k + 1][1] - pts[k][1]) for k in range(len(pts) - 1))
+            if ln < 0.05:
+                regs = None      # a dash too short to have a direction: caps are not determined by the statement
+                break
+            regs.append(geom.stroke_region(pc_, width, cap, join, ml))
+        if not regs:
+            continue
+        margin = 1.25
+        for y in range(H):
+            for x in range(W):
+                if (x + y + i) % 2:
+                    continue
+                u = (x + 0.5, y + 0.5)
+                a = int(px[y * W + x], 16) >> 24
+                d = min(r.dist(u) for r in regs)
+                checked += 1
+                if d > margin and a != 0:
+                    ctx.violation("dashpx-%s" % lines[i].split()[1], sr.aug[i],
+                                  "pixel (%d,%d) is %.2f px outside every dash (each dash stroked with its own caps and joins) but has alpha %d" % (x, y, d, a))
+                    return
+                if a != 255 and any(r.dist(u) == 0 and r.deep_inside(u, margin) for r in regs):
+                    ctx.violation("dashpx-%s" % lines[i].split()[1], sr.aug[i],
+                                  "pixel (%d,%d) is inside a dash (stroked with its own caps and joins) by more than the margin but has alpha %d" % (x, y, a))
+                    return
+    ctx.cov["dash_pixels_checked_against_region"] = checked
 
 
 def concat_check(ctx):
